@@ -18,10 +18,13 @@
                                       (what ipmi.open()/the handler raised, what ipmi.close() raised;
                                        <exc> = - | cc:<n> | lib:<Class>:<repr s>:<str s> | sock:<repr s>:<str s> | kbd | py:<Name>)
     probe                          -> closeInside=<0|1> escaping=<Class,…|-> int10=<entry:arg,…|-> optint10=<letter codes|->
-                                      link=<0|1> idstr=<0|1> entity=<0|1> catch=<cmd s>:<Name+…>;…
+                                      link=<0|1> idstr=<0|1> entity=<0|1> state=<0|1> conv=<0|1> arith=<0|1>
+                                      catch=<cmd s>:<Name+…>;…   (conv / arith: catchesConversion /
+                                      catchesArithmetic of all three sdr commands)
                                       (the executable hypotheses of the Props theorems, on today's source)
     argconvs <idx>                 -> k:0 | k:10 …  ( - if none)
-    linraises <code> <neg|zero|pos>      -> none | <Name>
+    linraises <byte> <neg|zero|pos>      -> none | <Name>     (byte 24 of the record: bit 7 is masked off)
+    speclin <code>                       -> formula|nonlinear|oem|reserved <conforming 0|1> <hasValue neg zero pos: 0|1 each>
     cell <cmd s> <code> <neg|zero|pos>   -> none | <Name>     (with today's handlers)
     sdrshow <type>                 -> none | <Name>           (today's handlers, today's sdr.py classes)
     linkstate <0|1>                -> none | <Name>
@@ -124,6 +127,8 @@ def probe : String :=
   s!"int10={commaOr ((base10Args Gen.Cli.argConvs).map fun (e, k) => s!"{e}:{k}")} " ++
   s!"optint10={commaOr ((base10Opts Gen.Cli.shape.rules).map toString)} " ++
   s!"link={b h.linkNoneGuard} idstr={b h.idStringGuard} entity={b h.entityGuard} state={b h.stateNoneGuard} " ++
+  s!"conv={b (["sdr list", "sdr show", "sdr showall"].all fun c => catchesConversion (catchOf h c))} " ++
+  s!"arith={b (["sdr list", "sdr show", "sdr showall"].all fun c => catchesArithmetic (catchOf h c))} " ++
   "catch=" ++ (if h.convCatch.isEmpty then "-" else
     ";".intercalate (h.convCatch.map fun (c, l) => showStr (ofString c) ++ ":" ++ (if l.isEmpty then "-" else "+".intercalate l)))
 
@@ -220,6 +225,14 @@ def handle (line : String) : String :=
     match c.toNat?, parseSign sg with
     | some c, some sg => optName (linRaises c sg)
     | _, _ => "bad-op"
+  | ["speclin", c] =>
+    match c.toNat? with
+    | some c =>
+      let b (x : Bool) : String := if x then "1" else "0"
+      let k := match Spec.Cli.linClass c with
+        | .formula _ => "formula" | .nonLinear => "nonlinear" | .oemNonLinear => "oem" | .reserved => "reserved"
+      s!"{k} {b (Spec.Cli.linConforming c)} {b (Spec.Cli.hasValue c .neg)}{b (Spec.Cli.hasValue c .zero)}{b (Spec.Cli.hasValue c .pos)}"
+    | none => "bad-op"
   | ["cell", cmd, c, sg] =>
     match parseStr cmd, c.toNat?, parseSign sg with
     | some cmd, some c, some sg => optName (cellRaises (catchOf Gen.Cli.handlers (toStr cmd)) c sg)
